@@ -174,6 +174,40 @@ def run_mixed(ctx, byte):
                 ctx.fail({"kind": "mixed", "dict": [repr(first), repr(second)]}, f"polynomial({{(0,): {first!r}, (1,): {second!r}}}) holds {got}", ["mixed", "dict", "value"])
 
 
+def run_weak_scalars(ctx, byte):
+    """narrow numpy scalars / arrays next to plain Python numbers the narrow type cannot hold: the Python number counts
+    with its default numpy type (as in numpy.array([...])), so nothing wraps or is rounded"""
+    narrow = [numpy.int8(1), numpy.uint8(7), numpy.int16(-3), numpy.float16(3), numpy.float32(0.5), numpy.array(2, dtype="int8")]
+    py = [1000, -70000, 2049, 0.1, 2 ** 40]
+    with warnings.catch_warnings():
+        warnings.simplefilter("ignore")
+        for x in narrow:
+            for y in py:
+                want = numpy.array([x, y])        # numpy's own answer for the mixed list
+                routes = [
+                    ("polynomial_from_attributes", lambda: numpoly.polynomial_from_attributes([[0], [1]], [x, y])),
+                    ("polynomial(dict)", lambda: numpoly.polynomial({(0,): x, (1,): y})),
+                    ("polynomial(list)", lambda: numpoly.polynomial([x, y])),
+                    ("polynomial(list with a polynomial)", lambda: numpoly.polynomial([numpoly.polynomial(x), y])),
+                ]
+                for label, f in routes:
+                    case = {"kind": "weak", "route": label, "narrow": repr(x), "python": repr(y)}
+                    ctx.evaluations += 1
+                    ctx.count("weak-scalars")
+                    try:
+                        p = f()
+                    except Exception as err:  # noqa: BLE001
+                        ctx.fail(case, f"{label} of {x!r} and {y!r} raised {type(err).__name__}: {str(err)[:100]}", ["weak", "raises"])
+                        continue
+                    if label.startswith("polynomial(list"):
+                        vals = numpy.asarray(p.tonumpy())
+                    else:
+                        cs = {int(e[0]): c for e, c in zip(p.exponents.tolist(), p.coefficients)}
+                        vals = numpy.array([cs.get(0, 0), cs.get(1, 0)]).astype(p.dtype)
+                    if p.dtype != want.dtype or not exact_equal(vals, want) or poisoned(p, byte):
+                        ctx.fail(case, f"{label} of {x!r} and {y!r} holds {vals.tolist()} ({p.dtype}); numpy.array gives {want.tolist()} ({want.dtype})", ["weak", "value"])
+
+
 def numpy_arith(op, a, b):
     with numpy.errstate(all="ignore"):
         return {"add": numpy.add, "sub": numpy.subtract, "mul": numpy.multiply}[op](a, b)
@@ -370,6 +404,7 @@ def run(ctx):
         with poison(byte):
             run_constructors(ctx, byte)
             run_mixed(ctx, byte)
+            run_weak_scalars(ctx, byte)
             run_arithmetic(ctx, byte)
             run_shape_functions(ctx, byte)
             run_empty_results(ctx, byte)
@@ -387,7 +422,7 @@ def search(ctx):
 def replay(ctx, case):
     n = len(ctx.failures)
     with poison(0xA5):
-        {"constructor": run_constructors, "mixed": run_mixed, "arith": run_arithmetic, "shape": run_shape_functions,
+        {"constructor": run_constructors, "mixed": run_mixed, "weak": run_weak_scalars, "arith": run_arithmetic, "shape": run_shape_functions,
          "empty": run_empty_results, "size0": run_empty_results}[case["kind"]](ctx, 0xA5)
     keys = [k for k in ("constructor", "src", "req", "op", "a", "b", "what", "dtype") if k in case]
     hits = [f for f in ctx.failures[n:] if all(f["case"].get(k) == case[k] for k in keys)]
